@@ -223,8 +223,7 @@ class ExprMixin:
         return self.binop(node.op, a, b, fr, node)
 
     def ev_DictComp(self, node, fr):
-        # only used for progress-bar bookkeeping in the supported functions: dropped (DESIGN 2.2)
-        return VOpaque(None, 'dropped')
+        raise Unsupported("dict comprehension (only progress-bar bookkeeping named in the contract's dropped_locals is dropped)")
 
     def binop(self, op, a, b, fr, node):
         if (isinstance(a, VOpaque) and a.tag in ('dropped', 'opaque')) or \
